@@ -240,7 +240,10 @@ def run_check(prop, tier, replay, families, teeth=(), cap_quick=90, cap_thorough
         fa = dict(f)
         fa["dev"] = asb
         tmo = 1500 if quick else 3000
-        if not asb:
+        # "ExtGetErrorDeletesStaging" only changes behaviour when a call can fail: without a fail budget the
+        # as-built model and the intended design are the same state machine
+        same_model = (not asb) or (set(asb) <= {"ExtGetErrorDeletesStaging"} and f["fail"] == 0)
+        if same_model:
             # intended design == as-built model: one TLC run checks the invariants and prints the schedules
             name = f"{prop}-mcgen-{f['name']}"
             r = vlib.tlc_mc(name, "MC_LanceCommit", cfg_text(f, MC_TAIL.replace("INVARIANTS ", "INVARIANTS GenPrint "), ()),
